@@ -33,6 +33,7 @@ var propTable = map[string]propDesc{
 			"R33: the running data offset and buffer of persistStoredFieldValues are handed back as accumulated",
 			"R27: stored-document index entries are u64 big endian at storedIndexOffset + 8*docNum on both sides",
 			"R27e: the stored block of a document is always snappy-encoded by the writers and always decoded by the reader",
+			"R10e: a stored-field accumulator recycled inside its container has every slice field truncated (no such recycling on the pinned tree; kept alive by the self-test)",
 		},
 		NotDecided: []string{"byte-for-byte round trip of values, types, array positions", "DocNumbers' max-key short cut"},
 	},
